@@ -7,12 +7,16 @@ package main
 // in every mode; ErrorLine never indexes outside the input.
 
 import (
+	"bytes"
+	"context"
 	"fmt"
 	"os"
 	"path/filepath"
 	"strings"
 
 	"grol.io/grol/ast"
+	"grol.io/grol/eval"
+	"grol.io/grol/repl"
 	"verifharness/common"
 	. "verifharness/common"
 )
@@ -83,6 +87,36 @@ func one(c *Ctx, src []byte, lineMode bool, toModel bool, st *stats) {
 	}
 }
 
+// entry runs one byte string through the entry points that sit in front of the parser in file mode (repl.EvalAll: `grol file`,
+// `grol -`, shebang scripts; repl.EvalStringWithOption: playground / -c), format-only so that nothing is evaluated: whatever
+// they do before and after parsing (shebang line stripped, text re-formatted) must not panic either.
+func entry(c *Ctx, src []byte) {
+	for _, compact := range []bool{false, true} {
+		c.Eval()
+		func() {
+			defer func() {
+				if r := recover(); r != nil {
+					c.Fail("entry-point-panic:EvalAll:"+panicClass(fmt.Sprint(r)), "ENTRY "+Hx(src), fmt.Sprintf("compact=%v: %v", compact, r))
+				}
+			}()
+			var out bytes.Buffer
+			o := repl.Options{All: true, FormatOnly: true, NoColor: true, Compact: compact}
+			_ = repl.EvalAll(eval.NewState(), bytes.NewReader(src), &out, o)
+		}()
+		func() {
+			defer func() {
+				if r := recover(); r != nil {
+					c.Fail("entry-point-panic:EvalString:"+panicClass(fmt.Sprint(r)), "ENTRY "+Hx(src), fmt.Sprintf("compact=%v: %v", compact, r))
+				}
+			}()
+			o := repl.EvalStringOptions()
+			o.FormatOnly, o.Compact = true, compact
+			_, _, _ = repl.EvalStringWithOption(context.Background(), o, string(src))
+		}()
+	}
+	c.Count("entry-point-inputs")
+}
+
 func panicClass(msg string) string {
 	switch {
 	case strings.Contains(msg, "nil pointer"):
@@ -106,6 +140,9 @@ func run(c *Ctx) {
 		if len(f) == 3 && f[0] == "FRONT" {
 			var st stats
 			one(c, Unhx(f[2]), f[1] == "L", true, &st)
+		}
+		if len(f) == 2 && f[0] == "ENTRY" {
+			entry(c, Unhx(f[1]))
 		}
 		return
 	}
@@ -234,6 +271,29 @@ func run(c *Ctx) {
 			}
 			one(c, mb, c.R.Bool(), i%4 == 0, &st)
 		}
+	}
+	// the entry points in front of the parser: shebang scripts and their truncations, every byte after "#!", and a sample
+	// of the inputs above
+	for _, scr := range []string{"#!/usr/bin/env grol -s\nprintln(1)\n", "#!\n", "#! x = )\nf(", "#!grol\r\n[1,\n", "#\n!", "x\n#!y"} {
+		for k := 0; k <= len(scr); k++ {
+			entry(c, []byte(scr[:k]))
+		}
+	}
+	for b := 0; b < 256; b++ {
+		entry(c, []byte{'#', '!', byte(b)})
+		entry(c, []byte{'#', '!', byte(b), '\n', byte(b)})
+		entry(c, []byte{'#', byte(b)})
+	}
+	for i := 0; i < 300; i++ {
+		g := &Gen{R: c.R, O: GenOpts{AvoidKnown: i%2 == 0, Comments: i%3 == 0, MaxDepth: 3}}
+		p := []byte(g.Program())
+		if i%3 == 0 {
+			p = append([]byte("#!/bin/grol\n"), p...)
+		}
+		if i%2 == 0 && len(p) > 0 {
+			p = p[:c.R.Intn(len(p)+1)]
+		}
+		entry(c, p)
 	}
 	c.Dist["outcome=panic"] = st.panic_
 	c.Dist["outcome=errors"] = st.errs
